@@ -274,8 +274,29 @@ func (h *Heap) newObj(s *State, t types.Type, zero bool) Val {
 			key, sort := h.cellKeySort(p.P, path, lv.T)
 			h.set(s, key, sort, Store(h.get(s, key, sort), p.S, lv.S))
 		})
+		// locks and once-flags embedded in a fresh object start out free / not done
+		h.initLocks(s, t, t, "", ref)
 	}
 	return p
+}
+
+func (h *Heap) initLocks(s *State, root, t types.Type, path, ref string) {
+	if n, ok := t.(*types.Named); ok && n.Obj().Pkg() != nil && n.Obj().Pkg().Path() == "sync" {
+		switch n.Obj().Name() {
+		case "Mutex", "RWMutex", "Once":
+			key := typeKey(root) + ":" + path
+			for _, kv := range [][3]string{{"held", "(Array Int Bool)", "false"}, {"done", "(Array Int Bool)", "false"}, {"rheld", "(Array Int Int)", "0"}} {
+				k := "X:lock:" + kv[0] + ":" + key
+				h.set(s, k, kv[1], Store(h.get(s, k, kv[1]), ref, kv[2]))
+			}
+		}
+		return
+	}
+	if st, ok := under(t).(*types.Struct); ok {
+		for i := 0; i < st.NumFields(); i++ {
+			h.initLocks(s, root, st.Field(i).Type(), joinPath(path, st.Field(i).Name()), ref)
+		}
+	}
 }
 
 // ---- maps ----
